@@ -10,13 +10,16 @@ N      == EnvInt("IV_N", 5)
 Box    == EnvInt("IV_BOX", 4)
 RelGrid == {0, 4, 8, 16, 32}      \* scaled by 8
 RelScale == 8
+Rel3Grid == {0, 1, 3, 5, 6, 24}     \* scaled by 8: 0, 1/8, 3/8, 5/8, 3/4, 3 - quotients are not exactly representable
 
 G_B == CASE Family = "chain" -> 0..(N - 1)
          [] Family = "box"   -> (-Box)..Box
          [] Family = "rel"   -> RelGrid
+         [] Family = "rel3"  -> Rel3Grid
 G_W == CASE Family = "chain" -> (-1)..N
          [] Family = "box"   -> (-(Box + 2))..(Box + 2)      \* every bound plus two outer witnesses on each side
          [] Family = "rel"   -> RelGrid
+         [] Family = "rel3"  -> Rel3Grid
 G_Scalars == (-Box)..Box
 
 =============================================================================
